@@ -88,7 +88,7 @@ package bigbuff
 //@   loop 0 invariant cnt : c <= 31 && int(c) == min(calls(value), 31)
 //@   at-call dynamic#0 guarded : lasterr(ctx) == nil
 //@   at-call var:calcExponentialRetry#0 rate : arg0 == rate
-//@   at-call math/rand.Int63n#0 slots : int(arg0) >= 1 && arg0 == i64(u32(1) << u32(min(calls(value), 31)))
+//@   at-call var:calcExponentialRetry>math/rand.Int63n#0 slots : int(arg0) >= 1 && arg0 == i64(u32(1) << u32(min(calls(value), 31)))
 //@   at-call var:waitDuration#0 ctx : arg0 == ctx && arg1 == lastrand() * rate
 //@   ensures success : ret1 == nil ==> calls(value) >= 1 && lastres(value, 1) == nil && ret0 == lastres(value, 0)
 //@   ensures failure : ret1 != nil ==> (ret0 == nil && cancelled(ctx)) || (calls(value) >= 1 && is(lastres(value, 1), fatalError) && ret0 == lastres(value, 0) && ret1 == unpacked(lastres(value, 1)))
@@ -214,3 +214,109 @@ package bigbuff
 //@   props C13 C12
 //@   ensures wired : ret1 == nil ==> ret0 != nil && ret0.valid && ret0.done != nil && ret0.cancel != nil && ret0.ctx != nil && !closed(ret0.done) && !oncedone(ret0.close) && ret0.rollback == 0 && len(ret0.buffer) == 0 && ret0.rate > 0
 //@   ensures err : ret1 != nil ==> ret0 == nil
+
+// ---------------------------------------------------------------------------------------------------
+// C14 — Workers (workers.go). maxreq = largest count any caller has requested so far (ghost).
+
+//@ type Workers as w
+//@   guard mutex : cond count target queue maxreq
+//@   cond cond : mutex
+//@   ghost maxreq int
+//@   inv mutex nonneg : w.count >= 0
+//@   inv mutex alive : len(w.queue) > 0 ==> w.count >= 1 && w.target >= 1
+//@   inv mutex condset : w.count > 0 ==> w.cond != nil
+//@   inv mutex bound : w.count <= w.maxreq
+//@   inv mutex items : all(i, 0, len(w.queue), w.queue[i] != nil && w.queue[i].value != nil && w.queue[i].output != nil && !closed(w.queue[i].output))
+
+//@ func (*Workers).Call
+//@   props C14
+//@   action mutex
+//@   panics badcount : count <= 0
+//@   panics nilvalue : value == nil
+//@   update-at-release maxreq : w.maxreq := max(old(w.maxreq), count)
+//@   loop 0 invariant spawn : w.count >= old(w.count) && w.count <= max(old(w.count), count) && w.count == old(w.count) + spawned("(*Workers).worker") && len(w.queue) == old(len(w.queue)) + 1 && w.target == count && w.cond != nil && all(i, 0, len(w.queue), w.queue[i] != nil && w.queue[i].value != nil && w.queue[i].output != nil && !closed(w.queue[i].output)) && heldW(w.mutex) && w.maxreq == old(w.maxreq)
+//@   ensures spawned : spawned("(*Workers).worker") == max(old(w.count), count) - old(w.count)
+//@   ensures received : recvd(output) == 1
+//@   ensures result : ret0 == lastrecv(output).result && ret1 == lastrecv(output).error
+//@   ensures enqueued : len(w.queue) >= 1 ==> true
+
+//@ func (*Workers).worker
+//@   props C14
+//@   # a running worker accounts for one unit of count: count is incremented once before each `go w.worker()`
+//@   # (Call/loop0 spawn invariant) and decremented only by a worker on its way out (this function).
+//@   rely counted : w.count >= 1
+
+//@ func (*Workers).worker$1
+//@   props C14
+//@   at-call builtin.close#0 delivered : !panicking() ==> lastsent(item.output).result == lastres(item.value, 0) && lastsent(item.output).error == lastres(item.value, 1)
+//@   at-call dynamic#0 unlocked : nolocks()
+
+//@ func (*Workers).Wait
+//@   props C14
+//@   action mutex
+//@   loop 0 invariant mon : inv(w.mutex) && heldW(w.mutex)
+//@   ensures idle : w.count == 0
+
+//@ func (*Workers).Count
+//@   props C14
+//@   action mutex
+//@   ensures value : ret == w.count
+
+// ---------------------------------------------------------------------------------------------------
+// C17 — Worker (worker.go)
+
+//@ type Worker as x
+//@   guard mu : wg stop done
+//@   inv mu pair : (x.stop == nil) == (x.done == nil)
+//@   inv mu open : x.stop != nil ==> !closed(x.stop)
+
+//@ func (*Worker).Do
+//@   props C17
+//@   action mu
+//@   panics nilrecv : x == nil
+//@   panics nilfn : fn == nil
+//@   ensures running : x.stop != nil && x.done != nil && !closed(x.stop)
+//@   ensures started : spawned("(*Worker).wait") == ite(old(x.stop) == nil, 1, 0) && spawned("(*Worker).do") == ite(old(x.stop) == nil, 1, 0)
+//@   ensures reused : old(x.stop) != nil ==> x.stop == old(x.stop) && x.done == old(x.done)
+//@   ensures held : x.wg != nil && boundrecv(ret) == x.wg && boundname(ret) == "(*sync.WaitGroup).Done"
+//@   ensures counted : old(x.wg) != nil ==> x.wg == old(x.wg) && wgn(x.wg) == old(wgn(x.wg)) + 1
+//@   ensures counted1 : old(x.wg) == nil ==> wgn(x.wg) == 1
+
+//@ func (*Worker).wait
+//@   props C17
+//@   # the wait goroutine belongs to a started instance: Do set stop/done before `go x.wait()` and only this
+//@   # function resets them (after <-x.done), so they are non-nil for as long as it runs.
+//@   rely alive : x.stop != nil && x.done != nil
+//@   at-call builtin.close#0 noholders : heldW(x.mu) && x.wg == nil && arg0 == x.stop
+//@   ensures reset : x.stop == nil && x.done == nil
+
+//@ func (*Worker).do
+//@   props C17
+//@   reads-owned stop done : written by Do only while no instance exists (before `go x.do`), reset by wait only after it received from done, i.e. after this function finished reading them
+//@   requires instance : x != nil && fn != nil && x.stop != nil && x.done != nil && !closed(x.done)
+//@   at-call dynamic#0 stopchan : arg0 == x.stop
+//@   at-call builtin.close#0 donechan : arg0 == x.done
+
+// ---------------------------------------------------------------------------------------------------
+// C20 — LinearAttempt (attempt.go)
+
+//@ func LinearAttempt
+//@   props C20 C12
+//@   panics nilctx : ctx == nil
+//@   panics badrate : rate <= 0
+//@   panics badcount : count <= 0
+//@   nopanic valid : ctx != nil && rate > 0 && count > 0
+//@   ensures chan : ret != nil && chancap(ret) == 1
+//@   ensures shape : (sent(ret) == 0 && closed(ret) && spawned("LinearAttempt$1") == 0) || (sent(ret) == 1 && count == 1 && closed(ret) && spawned("LinearAttempt$1") == 0) || (sent(ret) == 1 && count > 1 && !closed(ret) && spawned("LinearAttempt$1") == 1)
+//@   at-call builtin.close#0 onlycancelled : lasterr(ctx) != nil
+//@   at-call send#0 live : lasterr(ctx) == nil
+
+//@ func LinearAttempt$1
+//@   props C20 C12
+//@   modular
+//@   requires open : c != nil && !closed(c) && ctx != nil && count >= 1
+//@   nopanic always : true
+//@   loop 0 invariant counted : 0 <= i && i <= count && sent(c) == old(sent(c)) + i && !closed(c)
+//@   at-call send#0 fresh : lasterr(ctx) == nil
+//@   ensures closedonce : closed(c)
+//@   ensures bound : sent(c) <= old(sent(c)) + count
